@@ -4,7 +4,11 @@
 (*   mux/mod.rs:213-282 (process_inbound_frames).                           *)
 (* The peer's byte stream is a sequence of frames                           *)
 (*   [k |-> "open"] | [k |-> "close"] | [k |-> "data", len |-> 0..]         *)
-(* (2 header bytes; a DATA frame carries 2 more bytes of length). A DATA    *)
+(* each addressed to a reusable stream s (2 header bytes: kind, side,       *)
+(* stream id; a DATA frame carries 2 more bytes of length). ONE loop reads  *)
+(* the frames of ALL streams in order and the two semaphores are shared by  *)
+(* all streams of the connection (so a stream nobody reads eventually       *)
+(* stalls the others - the bound is per connection, not per stream). A DATA *)
 (* frame is cut into chunks of at most FrameSize bytes. Every control frame *)
 (* and every chunk holds one COUNT permit, a chunk also `size` SIZE permits,*)
 (* until the application consumes it; the permits of a chunk are acquired   *)
@@ -12,24 +16,29 @@
 (* sends and however slowly the application reads, the payload pulled and   *)
 (* not yet consumed never exceeds BufSize bytes in Count frames.            *)
 (***************************************************************************)
-EXTENDS Naturals, Sequences
+EXTENDS Naturals, Sequences, FiniteSets
+
+Streams == {0, 1}       \* reusable streams of the connection that the scenarios address
 
 VARIABLES sc,       \* the scenario: [fs, buf, cnt, frames]
           i,        \* index of the frame being processed
           hdr,      \* the header (and length) of frame i has been pulled
           rem,      \* payload bytes of frame i not yet pulled
-          held,     \* frames waiting in the stream's queue, oldest first: [k, sz] (sz = 0 for a control frame)
-          est,      \* the stream task has taken an OPEN frame and offers the transient stream to the application
+          held,     \* [stream -> frames waiting in that stream's queue, oldest first: [k, sz] (sz = 0 for a control frame)]
+          est,      \* [stream -> its task has taken an OPEN frame and offers the transient stream to the application]
           wire,     \* bytes pulled from the transport so far
           consumed  \* number of Consume steps so far
 bvars == <<sc, i, hdr, rem, held, est, wire, consumed>>
 
 RECURSIVE Sum(_)
 Sum(s) == IF s = <<>> THEN 0 ELSE Head(s).sz + Sum(Tail(s))
+(* permits in use, over all streams of the connection *)
+Payload == Sum(held[0]) + Sum(held[1])
+Count == Len(held[0]) + Len(held[1])
 Min2(a, b) == IF a < b THEN a ELSE b
 Cur == sc.frames[i]
 
-InitWith(S) == sc \in S /\ i = 1 /\ hdr = FALSE /\ rem = 0 /\ held = <<>> /\ est = FALSE /\ wire = 0 /\ consumed = 0
+InitWith(S) == sc \in S /\ i = 1 /\ hdr = FALSE /\ rem = 0 /\ held = [s \in Streams |-> <<>>] /\ est = [s \in Streams |-> FALSE] /\ wire = 0 /\ consumed = 0
 
 PullHeader ==
     /\ i <= Len(sc.frames) /\ ~hdr
@@ -40,33 +49,34 @@ PullHeader ==
     /\ UNCHANGED <<sc, held, est, consumed>>
 Control ==
     /\ hdr /\ Cur.k # "data"
-    /\ Len(held) < sc.cnt                                       \* one COUNT permit
-    /\ held' = Append(held, [k |-> Cur.k, sz |-> 0]) /\ i' = i + 1 /\ hdr' = FALSE
+    /\ Count < sc.cnt                                           \* one COUNT permit
+    /\ held' = [held EXCEPT ![Cur.s] = Append(@, [k |-> Cur.k, sz |-> 0])] /\ i' = i + 1 /\ hdr' = FALSE
     /\ UNCHANGED <<sc, rem, est, wire, consumed>>
 Chunk ==
     /\ hdr /\ Cur.k = "data" /\ rem > 0
     /\ LET size == Min2(rem, sc.fs) IN
-       /\ Len(held) < sc.cnt /\ Sum(held) + size <= sc.buf       \* permits FIRST
-       /\ held' = Append(held, [k |-> "data", sz |-> size]) /\ wire' = wire + size      \* ... then the bytes are pulled
+       /\ Count < sc.cnt /\ Payload + size <= sc.buf             \* permits FIRST
+       /\ held' = [held EXCEPT ![Cur.s] = Append(@, [k |-> "data", sz |-> size])] /\ wire' = wire + size      \* ... then the bytes are pulled
        /\ rem' = rem - size
        /\ IF rem - size = 0 THEN i' = i + 1 /\ hdr' = FALSE ELSE i' = i /\ hdr' = TRUE
     /\ UNCHANGED <<sc, est, consumed>>
-(* the stream's own task (reusable_stream.rs) takes the OPEN frame that starts a transient stream without any help of the    *)
-(* application - its permit is released; everything after it waits for the application                                       *)
-TakeOpen ==
-    /\ ~est /\ held # <<>> /\ Head(held).k = "open"
-    /\ held' = Tail(held) /\ est' = TRUE
+(* the stream's own task (reusable_stream.rs:166-170, recv_open) needs no help of the application while no transient stream is   *)
+(* established: it DISCARDS whatever comes first - releasing its permits - until it finds an OPEN frame, which starts a transient  *)
+(* stream; everything after that waits for the application                                                                        *)
+TakeOpen == \E s \in Streams :
+    /\ ~est[s] /\ held[s] # <<>>
+    /\ held' = [held EXCEPT ![s] = Tail(@)] /\ est' = [est EXCEPT ![s] = (Head(held[s]).k = "open")]
     /\ UNCHANGED <<sc, i, hdr, rem, wire, consumed>>
 (* the application reads (or drops) the oldest frame; a CLOSE ends the transient stream *)
-Consume ==
-    /\ est /\ held # <<>> /\ held' = Tail(held) /\ consumed' = consumed + 1
-    /\ est' = (Head(held).k # "close")
+Consume == \E s \in Streams :
+    /\ est[s] /\ held[s] # <<>> /\ held' = [held EXCEPT ![s] = Tail(@)] /\ consumed' = consumed + 1
+    /\ est' = [est EXCEPT ![s] = (Head(held[s]).k # "close")]
     /\ UNCHANGED <<sc, i, hdr, rem, wire>>
 Pull == PullHeader \/ Control \/ Chunk \/ TakeOpen
 BNext == Pull \/ Consume
 
 (* Safety *)
-Bounded == Sum(held) <= sc.buf /\ Len(held) <= sc.cnt
+Bounded == Payload <= sc.buf /\ Count <= sc.cnt
 (* progress of the reader side: while the application consumes, everything the peer sent is eventually pulled *)
 Drained == i > Len(sc.frames)
 =============================================================================
